@@ -55,6 +55,8 @@ func (rl *RangeLoop) Iterate() inspector.LoopCtl {
 		return inspector.LoopCtlBrk
 	}
 	if rl.ctx.brkD > 0 {
+		// This loop is one of the enclosing loops a nested break N ends.
+		rl.ctx.brkD--
 		rl.brk = true
 		return inspector.LoopCtlBrk
 	}
@@ -88,6 +90,12 @@ func (rl *RangeLoop) Iterate() inspector.LoopCtl {
 		if rl.ctx.brkD > 0 {
 			rl.ctx.brkD--
 		}
+		rl.brk = true
+		return inspector.LoopCtlBrk
+	}
+	if rl.ctx.brkD > 0 {
+		// A nested break N ends this loop as well, even if this was the last element.
+		rl.ctx.brkD--
 		rl.brk = true
 		return inspector.LoopCtlBrk
 	}
